@@ -226,6 +226,269 @@ StoredDirectly(c, p) ==
 Normalised(c, p) == SaveVerdict(c).ft = "ts1" /\ p \in {"Z", "Y", "H", "G"}
 
 -----------------------------------------------------------------------------
+(* Part 2 (C08): content, spellings, and the two pieces of Touchstone      *)
+(* syntax that decide what a file denotes: the option line and, in         *)
+(* version 1, the shape of the data lines.                                 *)
+
+(* ---- the option line:  # [unit] [parameter] [format] [R n]  ------------ *)
+(* any order, every field optional, defaults GHz S MA R 50 (Touchstone     *)
+(* 1.1, "Option line").  A token is [k |-> field, v |-> value]; R's value   *)
+(* is an interned id ("r50" = the default).                                *)
+
+TsUnits   == {"hz", "khz", "mhz", "ghz"}
+TsFormats == {"ri", "ma", "db"}
+OptFields == {"unit", "param", "fmt", "r"}
+OptDefault == [unit |-> "ghz", param |-> "S", fmt |-> "ma", r |-> "r50"]
+
+OptStep(st, tok) == [st EXCEPT ![tok.k] = tok.v]
+
+RECURSIVE OptRun(_, _)
+OptRun(st, toks) ==
+    IF toks = <<>> THEN st ELSE OptRun(OptStep(st, Head(toks)), Tail(toks))
+
+ParseOption(toks) == OptRun(OptDefault, toks)
+
+(* writing an option record: fields in the order `perm`, those in `omit`   *)
+(* left out (allowed only when they hold the default)                      *)
+RECURSIVE RenderOption(_, _, _)
+RenderOption(opt, perm, omit) ==
+    IF perm = <<>> THEN <<>>
+    ELSE (IF Head(perm) \in omit THEN <<>>
+          ELSE <<[k |-> Head(perm), v |-> opt[Head(perm)]]>>)
+         \o RenderOption(opt, Tail(perm), omit)
+
+OmitOK(opt, omit) == \A f \in omit : opt[f] = OptDefault[f]
+
+(* ---- version 1 data lines ---------------------------------------------- *)
+(* numbers per line: 1-port 3; 2-port 9; 3-port 7,6,6; 4-port 9,8,8,8;     *)
+(* noise lines 5 (after the network data).  A reader sees only the         *)
+(* sequence of line lengths and must recover the port count: a first line  *)
+(* of 9 numbers is a complete 2-port record or the first row of a 4-port   *)
+(* matrix, decided by the length of the next line.                         *)
+
+RECURSIVE Rep(_, _)
+Rep(s, n) == IF n = 0 THEN <<>> ELSE s \o Rep(s, n - 1)
+
+V1Record(ports) ==
+    CASE ports = 1 -> <<3>> [] ports = 2 -> <<9>>
+      [] ports = 3 -> <<7, 6, 6>> [] ports = 4 -> <<9, 8, 8, 8>>
+
+V1Lines(ports, nf, noise) == Rep(V1Record(ports), nf) \o Rep(<<5>>, noise)
+
+V1Start == [phase |-> "start", ports |-> 0, maybe4 |-> FALSE, left |-> 0,
+            nf |-> 0, noise |-> 0]
+
+V1Step(st, n) ==
+    CASE st.phase = "start" ->
+           CASE n = 3 -> [st EXCEPT !.phase = "freq", !.ports = 1, !.nf = 1]
+             [] n = 7 -> [st EXCEPT !.phase = "rows", !.ports = 3, !.left = 2, !.nf = 1]
+             [] n = 9 -> [st EXCEPT !.phase = "freq", !.ports = 2, !.maybe4 = TRUE,
+                                    !.nf = 1]
+             [] OTHER -> [st EXCEPT !.phase = "bad"]
+      [] st.phase = "freq" ->
+           IF st.maybe4 /\ n = 8
+           THEN [st EXCEPT !.phase = "rows", !.ports = 4, !.left = 2,
+                           !.maybe4 = FALSE]
+           ELSE IF n = 5 THEN [st EXCEPT !.phase = "noise", !.noise = 1,
+                                         !.maybe4 = FALSE]
+           ELSE IF n = Head(V1Record(st.ports))
+           THEN IF st.ports >= 3
+                THEN [st EXCEPT !.phase = "rows", !.left = st.ports - 1,
+                                !.nf = st.nf + 1]
+                ELSE [st EXCEPT !.nf = st.nf + 1, !.maybe4 = FALSE]
+           ELSE [st EXCEPT !.phase = "bad"]
+      [] st.phase = "rows" ->
+           IF n = 2 * st.ports
+           THEN IF st.left = 1 THEN [st EXCEPT !.phase = "freq", !.left = 0]
+                ELSE [st EXCEPT !.left = st.left - 1]
+           ELSE [st EXCEPT !.phase = "bad"]
+      [] st.phase = "noise" ->
+           IF n = 5 THEN [st EXCEPT !.noise = st.noise + 1]
+           ELSE [st EXCEPT !.phase = "bad"]
+      [] OTHER -> st
+
+RECURSIVE V1Run(_, _)
+V1Run(st, lines) ==
+    IF lines = <<>> THEN st ELSE V1Run(V1Step(st, Head(lines)), Tail(lines))
+
+V1Shape(lines) ==
+    LET st == V1Run(V1Start, lines)
+    IN [ok |-> st.phase \in {"freq", "noise"}, ports |-> st.ports,
+        nf |-> st.nf, noise |-> st.noise]
+
+(* ---- version 2 keywords ------------------------------------------------ *)
+(* after the option line: [Number of Ports] first, then in any order        *)
+(* [Two-Port Order] (exactly when 2 ports), [Number of Frequencies],        *)
+(* [Number of Noise Frequencies] (exactly when noise data follow),          *)
+(* [Reference], [Matrix Format]; then [Network Data]                        *)
+
+V2Optional == {"order", "nfreq", "nnoise", "reference", "mformat"}
+
+NoDup(s) == \A a, b \in 1..Len(s) : a # b => s[a] # s[b]
+
+V2KeywordsOK(kws, ports, noise) ==
+    /\ Len(kws) >= 2 /\ kws[1] = "ports" /\ NoDup(kws)
+    /\ \A k \in 2..Len(kws) : kws[k] \in V2Optional
+    /\ \E k \in 2..Len(kws) : kws[k] = "nfreq"
+    /\ (\E k \in 2..Len(kws) : kws[k] = "order") <=> (ports = 2)
+    /\ (\E k \in 2..Len(kws) : kws[k] = "nnoise") <=> noise
+
+(* ---- content and spelling ----------------------------------------------- *)
+(* content class: what the file denotes, up to the numbers                  *)
+(*   param  S Z Y H G      ports 1..8      nf      z0k: "r50" all ports 50, *)
+(*   "req" all ports one other value, "runeq" per-port values               *)
+(*   sym: the matrices are symmetric      noise: number of noise records    *)
+(* spelling: the choices the formats define as equivalent                   *)
+(*   fr v1|v2   unit   fmt   mf full|upper|lower   ord 12_21|21_12|na       *)
+(*   perm (order of the option fields)  omit (fields left to default)       *)
+(*   kwp (order of the optional version-2 keywords)  ref (write [Reference] *)
+(*   even when one impedance would do)  mfx (write [Matrix Format] Full)    *)
+(*   noise (write the noise block)                                          *)
+(*   deco, num, lb, acc: comments / blank lines / case / spacing, number    *)
+(*   style, line breaking, way of loading (vnadata_load, vnadata_fload,     *)
+(*   type from set_filetype, the other Touchstone extension, into an object *)
+(*   that already holds other data) -- no influence on the meaning          *)
+
+ContentOK(c) ==
+    /\ c.param \in TouchstoneParams /\ c.ports \in 1..8 /\ c.nf >= 1
+    /\ (c.param \in {"H", "G"} => c.ports = 2)
+    /\ c.z0k \in {"r50", "req", "runeq"}
+    /\ (c.z0k = "runeq" => c.ports >= 2)
+    /\ (c.noise > 0 => c.ports = 2)
+
+OptOf(c, s) == [unit |-> s.unit, param |-> c.param, fmt |-> s.fmt,
+                r |-> IF c.z0k = "r50" THEN "r50"
+                      ELSE IF c.z0k = "req" THEN "rX" ELSE "r50"]
+
+HasReference(c, s) == s.fr = "v2" /\ (c.z0k = "runeq" \/ s.ref)
+
+ValidSpelling(c, s) ==
+    /\ s.unit \in TsUnits /\ s.fmt \in TsFormats
+    /\ OmitOK(OptOf(c, s), s.omit)
+    /\ (s.fr = "v1" =>
+            /\ c.ports <= 4 /\ c.z0k # "runeq"
+            /\ s.mf = "full" /\ ~s.ref
+            /\ s.ord = (IF c.ports = 2 THEN "21_12" ELSE "na"))
+    /\ (s.fr = "v2" =>
+            /\ (s.ord \in {"12_21", "21_12"}) <=> (c.ports = 2)
+            /\ (s.ord = "na") <=> (c.ports # 2)
+            /\ (s.mf # "full" => c.sym))
+    /\ (s.noise => c.noise > 0)
+
+(* the structural part of the text a spelling produces *)
+V2Kws(c, s) ==
+    LET opt == [k \in V2Optional |->
+                  CASE k = "order" -> c.ports = 2
+                    [] k = "nfreq" -> TRUE
+                    [] k = "nnoise" -> s.noise
+                    [] k = "reference" -> HasReference(c, s)
+                    [] k = "mformat" -> s.mf # "full" \/ s.mfx]
+        RECURSIVE Keep(_)
+        Keep(q) == IF q = <<>> THEN <<>>
+                   ELSE (IF opt[Head(q)] THEN <<Head(q)>> ELSE <<>>) \o Keep(Tail(q))
+    IN <<"ports">> \o Keep(s.kwp)
+
+Render(c, s) ==
+    [version |-> IF s.fr = "v1" THEN 1 ELSE 2,
+     option  |-> RenderOption(OptOf(c, s), s.perm, s.omit),
+     lines   |-> IF s.fr = "v1"
+                 THEN V1Lines(c.ports, c.nf, IF s.noise THEN c.noise ELSE 0)
+                 ELSE <<>>,
+     kws     |-> IF s.fr = "v2" THEN V2Kws(c, s) ELSE <<>>,
+     ports   |-> c.ports, nf |-> c.nf,
+     noise   |-> IF s.noise THEN c.noise ELSE 0,
+     mf      |-> s.mf, ord |-> s.ord,
+     refvals |-> IF HasReference(c, s) THEN c.z0k ELSE "none"]
+
+(* what a reader of the format gets from that text *)
+Decode(t) ==
+    LET o == ParseOption(t.option)
+    IN IF t.version = 1
+       THEN LET sh == V1Shape(t.lines)
+            IN [ok |-> sh.ok, version |-> 1, param |-> o.param, fmt |-> o.fmt,
+                unit |-> o.unit, ports |-> sh.ports, nf |-> sh.nf,
+                z0 |-> IF o.r = "r50" THEN "r50" ELSE "req",
+                normalised |-> o.param \in {"Z", "Y", "H", "G"},
+                mf |-> "full", ord |-> IF sh.ports = 2 THEN "21_12" ELSE "na"]
+       ELSE [ok |-> V2KeywordsOK(t.kws, t.ports, t.noise > 0), version |-> 2,
+             param |-> o.param, fmt |-> o.fmt, unit |-> o.unit,
+             ports |-> t.ports, nf |-> t.nf,
+             z0 |-> IF t.refvals # "none" THEN t.refvals
+                    ELSE IF o.r = "r50" THEN "r50" ELSE "req",
+             normalised |-> FALSE, mf |-> t.mf, ord |-> t.ord]
+
+(* the abstract content a decoded file stands for (the encoding choices    *)
+(* -- unit, number format, storage order, framing -- projected away)       *)
+ContentOf(d) == [param |-> d.param, ports |-> d.ports, nf |-> d.nf, z0 |-> d.z0]
+
+Denotes(c, s) ==
+    LET d == Decode(Render(c, s))
+    IN /\ d.ok
+       /\ ContentOf(d) = [param |-> c.param, ports |-> c.ports, nf |-> c.nf,
+                          z0 |-> c.z0k]
+
+SameContent(c, s1, s2) ==
+    ContentOf(Decode(Render(c, s1))) = ContentOf(Decode(Render(c, s2)))
+
+(* ---- NPD header ---------------------------------------------------------- *)
+(* "#:" keyword lines; every line sets one field, so their order carries no *)
+(* meaning.  Required: ports, frequencies, parameters.  A header is a       *)
+(* sequence of [k |-> key, v |-> value id].                                  *)
+
+NpdKeys     == {"version", "ports", "frequencies", "parameters", "z0",
+                "fprecision", "dprecision"}
+NpdRequired == {"ports", "frequencies", "parameters"}
+NpdUnset    == [k \in NpdKeys |-> <<"unset">>]
+
+RECURSIVE NpdRun(_, _)
+NpdRun(st, hdr) ==
+    IF hdr = <<>> THEN st
+    ELSE NpdRun([st EXCEPT ![Head(hdr).k] = Head(hdr).v], Tail(hdr))
+
+NpdParse(hdr) ==
+    LET st == NpdRun(NpdUnset, hdr)
+    IN [ok |-> /\ \A k \in NpdRequired : st[k] # <<"unset">>
+               /\ \A a, b \in 1..Len(hdr) : a # b => hdr[a].k # hdr[b].k
+               /\ \A a \in 1..Len(hdr) : hdr[a].k \in NpdKeys,
+        st |-> st]
+
+(* NPD content class: type, ports, nf, z0k ("r50" | "complex" | "perfreq");  *)
+(* spelling: order (sequence of header keys written), fmt, names (letter     *)
+(* case of the specifier), deco, num, acc                                    *)
+NpdContentOK(c) ==
+    /\ c.type \in MatrixTypes \cup {"Zin"}
+    /\ c.ports >= 1 /\ c.nf >= 1
+    /\ (c.type \in TwoPortTypes => c.ports = 2)
+    /\ c.z0k \in {"r50", "complex", "perfreq"}
+
+NpdHeaderOf(c, s) ==
+    [j \in 1..Len(s.order) |->
+        [k |-> s.order[j],
+         v |-> CASE s.order[j] = "ports" -> <<"set", c.ports>>
+                 [] s.order[j] = "frequencies" -> <<"set", c.nf>>
+                 [] s.order[j] = "parameters" -> <<"set", c.type, s.fmt>>
+                 [] s.order[j] = "z0" -> <<"set", c.z0k>>
+                 [] OTHER -> <<"set", "given">>]]
+
+NpdValidSpelling(c, s) ==
+    /\ s.fmt \in Coords
+    /\ (s.fmt = "db" => c.type \in PowerTypes)
+    /\ NpdParse(NpdHeaderOf(c, s)).ok
+    /\ \E j \in 1..Len(s.order) : s.order[j] = "z0"
+
+NpdDenotes(c, s) ==
+    LET r == NpdParse(NpdHeaderOf(c, s))
+    IN /\ r.ok
+       /\ r.st.ports = <<"set", c.ports>> /\ r.st.frequencies = <<"set", c.nf>>
+       /\ r.st.parameters[2] = c.type /\ r.st.z0 = <<"set", c.z0k>>
+
+NpdSameContent(c, s1, s2) ==
+    LET a == NpdParse(NpdHeaderOf(c, s1)).st
+        b == NpdParse(NpdHeaderOf(c, s2)).st
+    IN /\ a.ports = b.ports /\ a.frequencies = b.frequencies
+       /\ a.parameters[2] = b.parameters[2] /\ a.z0 = b.z0
+
+-----------------------------------------------------------------------------
 (* Part 3: the format-string grammar of vnadata_set_format.                *)
 (* The string is a comma-separated, case-insensitive list of specifiers;   *)
 (* a specifier is  <parameter>[<coordinates>]  or one of the fixed names.  *)
@@ -304,5 +567,42 @@ RenderFormat(fm) ==
     IF fm = <<>> THEN <<>>
     ELSE IF Len(fm) = 1 THEN TokensOf(fm[1])
     ELSE TokensOf(fm[1]) \o <<",">> \o RenderFormat(Tail(fm))
+
+-----------------------------------------------------------------------------
+(* Part 4: the file type of an object across calls (vnadata(3): "If the     *)
+(* type cannot be determined from filename, and the vnadata_t structure     *)
+(* already has a filetype set through vnadata_set_filetype() or a previous  *)
+(* load, it uses the existing file type ... defaults to NPD").              *)
+(* State: ft in Sets.  Operations                                           *)
+(*   [op |-> "set",  ft |-> x]                                              *)
+(*   [op |-> "load", ext |-> e, kind |-> k]   k: what the file really is    *)
+(*   [op |-> "save", ext |-> e]               (2x2 S data, format Sri)      *)
+(* StickDo gives the outcome and the set of file types the object may hold  *)
+(* afterwards: where the manual is silent (after a save, after a failed     *)
+(* load) both the old and the resolved type are admitted.                   *)
+
+FileKinds == {"npd", "ts1", "ts2"}
+KindFamily(k) == IF k = "npd" THEN "npd" ELSE "ts"
+
+StickDo(ft, o) ==
+    CASE o.op = "set" -> [ok |-> TRUE, after |-> {o.ft}, wrote |-> "none"]
+      [] o.op = "load" ->
+           \* for a load the .ts extension simply means Touchstone
+           LET r == IF o.ext = "ts" THEN "ts2" ELSE ResolveFiletype(o.ext, ft).ft
+           IN IF LoadFamily(o.ext, ft) = KindFamily(o.kind)
+              THEN [ok |-> TRUE, after |-> {o.kind}, wrote |-> "none"]
+              ELSE [ok |-> FALSE, after |-> {ft, r}, wrote |-> "none"]
+      [] o.op = "save" ->
+           LET c == [type |-> "S", rows |-> 2, cols |-> 2, nf |-> 2,
+                     ext |-> o.ext, set |-> ft,
+                     fmts |-> <<[p |-> "S", f |-> "ri"]>>, z0c |-> "equal"]
+               v == SaveVerdict(c)
+           IN [ok |-> v.v = "accept", after |-> {ft, v.ft} \ {"none"},
+               wrote |-> v.ft]
+
+StickOps ==
+    {[op |-> "set", ft |-> x] : x \in Sets} \cup
+    {[op |-> "load", ext |-> e, kind |-> k] : e \in Exts, k \in FileKinds} \cup
+    {[op |-> "save", ext |-> e] : e \in Exts}
 
 =============================================================================
